@@ -493,6 +493,22 @@ func C08(r *Run) {
 		edge = append(edge, map[string]any{"e": map[string]any{"$encode": a, "$value": []any{"", "x", ""}}},
 			map[string]any{"e": map[string]any{"$decode": a, "$value": ""}})
 	}
+	// keys that evaluate to non-strings, self-referential templates, $decode shapes
+	edge = append(edge,
+		map[string]any{"$merge:a": 1, "a": 5},
+		map[string]any{"l": []any{map[string]any{"$repeat": 2, "m": map[string]any{"$repeat": "v"}}}},
+		map[string]any{"m": map[string]any{"$repeat": 2, "$repeat:x": 1}},
+		map[string]any{"a": `$"{a}"`},
+		map[string]any{"a": `$"{b}"`, "b": `$"<{a}>"`},
+		map[string]any{"d": map[string]any{"$decode": "json", "$value": 5}},
+		map[string]any{"d": map[string]any{"$decode": "json", "$value": "1", "x": 2}},
+		map[string]any{"d": map[string]any{"$decode": "json", "$value": "1 2"}},
+		map[string]any{"d": map[string]any{"$decode": "yaml", "$value": "a: 1\n---\nb: 2\n"}},
+		map[string]any{"d": map[string]any{"$decode": "toml", "$value": "a = 1\n---\nb = 2\n"}},
+		map[string]any{"d": map[string]any{"$decode": "json", "$value": ""}},
+		map[string]any{"d": map[string]any{"$decode": "yaml", "$value": "a: &x\n  b: *x\n"}},
+		map[string]any{"d": map[string]any{"$decode": "json", "$value": `{"$merge": "d"}`}},
+		map[string]any{"d": map[string]any{"$decode": "json", "$value": `{"k": "$required"}`}})
 	for i, doc := range edge {
 		doc, i := doc, i
 		submit(func() [][]byte {
